@@ -468,6 +468,10 @@ def run(prog: Program, rep: Report, tier: str) -> None:
     ctor_order_analysis(prog, rep)
     load_module_analysis(prog, rep)
     warm_block_analysis(prog, rep, word or [x for x in STEP_WORD])
+    from ..share import share
+
+    share(prog, rep, "C06", ("R06.3", "R06.6"), "R19.7", "the record written in a step carries the clock of that step and only the particles alive in it", 4)
+
 
 
 from ..selftest import Mut  # noqa: E402
